@@ -52,6 +52,7 @@ func (c *conn) receiveOpen(msg pmpx.Message) status.Status {
 	// Add channel
 	// Duplicates are impossible, but still check for them.
 	ch := openChannel(c, c.client, m)
+	verifYield("recv.beforeOpenSet")
 	_, exists := c.channels.GetOrSet(id, ch)
 	if exists {
 		ch.Free()
